@@ -159,7 +159,7 @@ Def(k) == CASE k = "ids"     -> M("ids", <<"i1", "i2">>)
             [] k = "limit"   -> M("limit", <<"10">>)
 Defs(o) == IF Len(o) = 0 THEN <<>> ELSE [i \in 1..Len(o) |-> Def(o[i])]
 TagE == T(LE, <<"hex1">>)
-TagP == T(LP, <<"hex2", "quote">>)
+TagP == T(LP, <<"hex2", "space">>)
 
 NamedOrders == SetToAllKPermutations(NamedSet)             \* 1957 = every subset in every order
 FullOrders  == SetToSeqs(NamedSet)                         \* 720
